@@ -372,25 +372,25 @@ func fatal(s string) {
 // ---------------------------------------------------------------------------
 
 type rewriter struct {
-	pkg    *packages.Package
-	fset   *token.FileSet
-	repo   string
-	file   *ast.File
-	fname  string
-	rel    string
-	fs     bool
-	maps   bool // report map accesses of this package to the race tracker
-	hb     bool // add the happens-before calls around channel operations
-	rmw    bool // split read-modify-write statements on shared variables (R10)
+	pkg      *packages.Package
+	fset     *token.FileSet
+	repo     string
+	file     *ast.File
+	fname    string
+	rel      string
+	fs       bool
+	maps     bool // report map accesses of this package to the race tracker
+	hb       bool // add the happens-before calls around channel operations
+	rmw      bool // split read-modify-write statements on shared variables (R10)
 	isExtPkg bool
-	usedRT bool
-	usedFS bool
-	tmpN   int
+	usedRT   bool
+	usedFS   bool
+	tmpN     int
 
-	skip     map[ast.Node]bool // comm statements of selects (handled by the select rewrite)
-	twoValue map[ast.Node]bool // `v, ok := <-c`
-	noWrap   map[ast.Node]bool // calls directly under defer/go
-	reinitFn map[string]int    // reinit function name -> InitOrder index
+	skip          map[ast.Node]bool // comm statements of selects (handled by the select rewrite)
+	twoValue      map[ast.Node]bool // `v, ok := <-c`
+	noWrap        map[ast.Node]bool // calls directly under defer/go
+	reinitFn      map[string]int    // reinit function name -> InitOrder index
 	labelPrologue map[*ast.LabeledStmt][]ast.Stmt
 	mapChecks     map[ast.Stmt][]ast.Stmt // race-tracker calls to insert before a statement
 }
